@@ -14,16 +14,19 @@ from . import c04
 
 LEVEL = "fault_enumeration"
 LEVEL_TEXT = ("Generated @defer/@stream (and plain) requests run on the controlled loop under seeded schedules; for every run the consumer is stopped at an enumerated "
-              "point - closing the payload stream after k = 0..n delivered payloads, triggering the abort signal (exception / non-exception / default reason) at a "
-              "scheduler-chosen idle point, or a resolver / list source failing - with early execution on and off, with and without an abort signal configured. "
+              "point - closing the payload stream after k = 0..n delivered payloads, cancelling the consumer's k-th pull while it is in flight and then closing, triggering the abort signal "
+              "(exception / non-exception / default reason) at a scheduler-chosen idle point, before the execution starts, or from inside the n-th resolver invocation, or a resolver / list source "
+              "failing - with early execution on and off, with and without an abort signal configured; resolvers and list items may hand over running tasks, sources may take a step to close, "
+              "a second awaitable may complete a few loop iterations after the chosen one. "
               "After the stop NO further harness awaitable is completed: the awaiting caller must be released anyway (else logical deadlock); then the remaining "
               "awaitables are completed and the loop driven to idleness: no task may remain pending, every started source iterator must be closed exactly once, "
               "the work-finished hook must have fired exactly once and only when no harness coroutine the executor started was still unwinding.")
 LEVEL_NOTE = ("trusted: controlled loop; life-cycle counters in harness iterators/coroutines; 'Task was destroyed but it is pending' is read from the loop's exception handler. "
               "Diagnostics (never-awaited coroutines, never-retrieved exceptions) are recorded, not judged. The hook clause is checked for experimental_execute_incrementally")
 TECHNIQUE = "runtime monitoring with fault enumeration: stop-point x stop-kind enumeration under schedule control; leak / close-once / hook-once monitors; logical-deadlock verdict"
-RULE = ("requests as in C04; per request: stop kinds {aclose after k payloads for every k the unstopped run delivered (+ before the first pull), abort(reason) for 3 reason kinds at 2 "
-        "scheduler-chosen points, none (resolver / source failures only)} x early execution {off,on} x abort signal configured {no,yes}. Non-trivial: the stop happened while "
+RULE = ("requests as in C04 (incl. mutations, is_type_of resolution, nested-shared / triple-nested defers) plus long-stream, failing-stream-item and late-stream slices; per request: stop kinds "
+        "{aclose after k payloads for every k the unstopped run delivered (+ before the first pull), pull k cancelled in flight for every k, abort(reason) for 3 reason kinds at 2 "
+        "scheduler-chosen points, abort before the start, abort from inside the n-th resolver, none (resolver / source failures only)} x early execution {off,on} x abort signal configured {no,yes}. Non-trivial: the stop happened while "
         ">= 1 harness awaitable was outstanding; distinct = (document, stop kind and point, early, state signature at the stop, interleaving).")
 ASSUMPTIONS = ["a caller that receives AbortedGraphQLExecutionError disposes of the partial result it carries (awaits aborted_result and closes its payload stream if it has one)",
                "after the stop action no further harness awaitable completes until the caller has been released (a stop must cancel outstanding work, not wait for it)",
